@@ -135,6 +135,12 @@ theorem checker_error_codes_match :
     noVerifyErrCodes = [6, 6] ∧ verifierErrCodes = [6, 4, 3, 2, 2, 6] ∧
     errUnexpectedCode = 1 ∧ errUnexpectedPayloadCode = 3 := by decide
 
+/-- the credential checkers of the source carry configuration only — no cache, pool or other field
+that survives a `CheckCredential` call (regenerated from the struct declarations): this is what
+licenses modelling `check` as a function of (configuration, credentials) alone, i.e. a verdict and an
+attached identity that cannot depend on, or be changed by, other connections of the same node -/
+theorem checkers_are_stateless : checkersStateless = true := by decide
+
 /-- … and none of them is Error_Null (a `HandshakeError{Err: …}` without a code would be) -/
 theorem no_error_path_encodes_null : ∀ c ∈ noVerifyErrCodes ++ verifierErrCodes, c ≠ 0 := by decide
 
